@@ -7,6 +7,10 @@ for t in tlc java go rsync python3 apalache-mc; do command -v $t >/dev/null || {
 S=$(mktemp -d /tmp/verif_setup_XXXXXX); trap 'rm -rf "$S"' EXIT
 rsync -a --exclude .git /repo/ "$S/golib/"; rsync -a /verif/harness/ "$S/harness/"
 rsync -a /verif/harness/shim/ "$S/golib/verifshim/"
+# the same import rewriting the concurrent checks apply to their scratch copies
+M=github.com/welllog/golib/verifshim
+sed -i -e "s|\"sync/atomic\"|\"$M/atomic\"|" -e "s|^\([[:space:]]*\)\"runtime\"$|\1\"$M/runtime\"|" "$S/golib/ringz/sync.go" "$S/golib/listz/sync_list.go" "$S/golib/mapz/safekv.go" 2>/dev/null || true
+sed -i -e "s|^\([[:space:]]*\)\"sync\"$|\1\"$M/sync\"|" -e "s|^import \"sync\"$|import \"$M/sync\"|" "$S/golib/mapz/safekv.go" 2>/dev/null || true
 for d in /verif/harness/overlay/*/; do p=$(basename "$d"); [ -d "$S/golib/$p" ] && cp "$d"*.go "$S/golib/$p/"; done
 (cd "$S/harness" && go build -o "$S/bin/" ./cmd/... ) || echo "warning: harness does not build against the current tree (checks fall back to black-box builds)"
 mkdir -p /verif/evidence
